@@ -512,4 +512,40 @@ pub fn run(ctx: &mut Ctx) {
         ctx.count(&format!("compressed_{}", tag));
         check_bytes(ctx, "gen", &c);
     }
+    // large compressed terms, what term_to_binary(T, [compressed]) emits for a big payload: the zlib stream is longer than
+    // any internal buffer of the inflater (flate2 reads its input through a 32 KiB buffer), for payloads that compress
+    // badly (noise), well (one repeated byte) and in between (a long list of small integers); every compression level
+    // (seeded change S63: the inflated term read with one `read` call, which returns at most what one buffer holds)
+    let plan: Vec<(usize, Vec<&str>, Vec<u32>)> = if ctx.thorough {
+        vec![(20_000, vec!["noise", "flat", "ints"], vec![0, 1, 6, 9]), (33_000, vec!["noise", "flat", "ints"], vec![0, 1, 6, 9]),
+             (70_000, vec!["noise", "flat", "ints"], vec![0, 6]), (300_000, vec!["noise", "ints"], vec![6])]
+    } else {
+        vec![(33_000, vec!["noise", "flat", "ints"], vec![0, 6]), (70_000, vec!["noise"], vec![9])]
+    };
+    for (n, kinds, levels) in plan {
+        for kind in kinds {
+            let t = match kind {
+                "noise" => OwnedTerm::Binary(ctx.rng.bytes(n)),
+                "flat" => OwnedTerm::Binary(vec![0x61u8; n * 2]),
+                _ => OwnedTerm::List((0..n / 4).map(|_| OwnedTerm::Integer((ctx.rng.next() % 100_000) as i64)).collect()),
+            };
+            let plain_bytes = erltf::encode(&t).unwrap();
+            for &level in &levels {
+                let mut e = flate2::write::ZlibEncoder::new(Vec::new(), flate2::Compression::new(level));
+                e.write_all(&plain_bytes[1..]).unwrap();
+                let z = e.finish().unwrap();
+                let mut c = vec![131u8, 80];
+                c.extend_from_slice(&((plain_bytes.len() - 1) as u32).to_be_bytes());
+                c.extend_from_slice(&z);
+                ctx.count(&format!("compressed_large_{}", kind));
+                if z.len() > 32 * 1024 {
+                    ctx.count("compressed_stream_over_32k");
+                }
+                let Some(orc) = crate::oracle::oracle_for_top_compressed(&c) else { continue };
+                let (dr, _) = crate::c01::dec_result(&c);
+                ctx.tie("gen", &format!("dec {} {}", hexarg(&c), orc), &dr);
+                ctx.prop("gen", &format!("c03 {} {} {}", hexarg(&c), orc, dr.replace(' ', "~")), "ok");
+            }
+        }
+    }
 }
